@@ -7,7 +7,7 @@ from . import c03
 ARTEFACTS = ["G1-consts", "G13-traits"]
 EXTRA_PROPS = [("B3.Props.C16T", "B3/Props/C16T.lean")]   # theorems about the code translated from the sources
 RULE = ("histories over the trait methods (Update, Reset, FixedOutput, FixedOutputReset, Digest::finalize, ExtendableOutput, "
-        "ExtendableOutputReset + XofReader, KeyInit::new / new_from_slice with keys of every length 0..40, Mac finalize / verify_slice "
+        "ExtendableOutputReset + XofReader (also: one reader driven by XofReader::read, fill, io::Read and seeks in any order, lengths 0..1024 incl. whole blocks from unaligned positions), KeyInit::new / new_from_slice with keys of every length 0..40, Mac finalize / verify_slice "
         "with good, bit-flipped, truncated and extended tags) interleaved with the inherent methods on the same registers, each followed "
         "by inherent finalize/count so that the state left behind by the resetting variants is observed; guts::ChunkState with chunk "
         "counters {0,1,2^32-1,2^32,2^32+1,2^64-1}, lengths over the size classes <= 1024 in any split, is_root both ways (root with "
@@ -46,6 +46,29 @@ def trait_history(rng, plat):
             ops += ["H fin a", "H cnt a"]
     ops += ["H cnt a", "T fin a", "H fin a"]
     return Script(ops, tags=(plat, "traits"), nontrivial=nt)
+
+
+def trait_reader_script(rng, plat):
+    """one reader driven through XofReader::read, the inherent fill, io::Read and seeks in any order: a trait read must continue
+    exactly where the previous call stopped, whatever the alignment of the position and the length of the buffer"""
+    ops = [f"P plat {plat}", f"H new a {mode_tok(rng)}", f"H upd a {pat(rng.choice([0, 3, 64, 1025]), rng)}",
+           rng.choice(["T xof a x", "T xofr a x", "H xof a x"])]
+    lens = [0, 1, 7, 31, 32, 33, 63, 64, 65, 100, 128, 192, 256, 1000, 1024]
+    for _ in range(rng.randrange(3, 9)):
+        k = rng.random()
+        if k < 0.55:
+            ops.append(f"T read x {rng.choice(lens)}")
+        elif k < 0.7:
+            ops.append(f"X fill x {rng.choice(lens)}")
+        elif k < 0.8:
+            ops.append(f"X read x {rng.choice(lens)}")
+        elif k < 0.92:
+            base = rng.choice([0, 64, 1 << 20, 1 << 32, 1 << 40])
+            ops.append(f"X setpos x {base + rng.choice([0, 1, 17, 32, 63])}")
+        else:
+            ops.append(f"X seek x cur {rng.choice([1, 5, 64, 100])}")
+        ops.append("X pos x")
+    return Script(ops, tags=(plat, "trait-reader"), nontrivial=True)
 
 
 def offset_reset_script(rng, plat):
@@ -101,6 +124,7 @@ def stages(tier, seed, witness_search=False):
     scripts = [trait_history(rng, PLATFORMS[i % 5]) for i in range(n)] + [mac_script(rng) for _ in range(40)] + keylen_scripts(rng)
     scripts += [guts_script(rng, PLATFORMS[i % 5]) for i in range(n // 2)]
     scripts += [offset_reset_script(rng, PLATFORMS[i % 5]) for i in range(40)]
+    scripts += [trait_reader_script(rng, PLATFORMS[i % 5]) for i in range(n // 2)]
     # Mac::verify_slice with the right tag, a flipped bit, truncated and extended tags: the tag comes from a first run,
     # so these are generated as (script, tag) pairs by running the model offline is not possible here; use fixed vectors:
     # key = 00..1f, empty message
